@@ -91,7 +91,6 @@ Item = Tuple[str, Opt[str]]
 def SetNodeOk(n: XNode, survey: SurveyQ, tag: str, item: Item) -> bool:
     """C10/C02: the action nested in the trigger's control — fired on value change, targeting the calculated question's
     node, its value the calculation resolved *from that node* (absent when the row has no calculation)."""
-    inline()
     tgt = some(survey._xpath)[item[0]]
     return (n.nodeType == 1 and n.tagName == tag and len(n.kids) == 0
             and n.attrs["ref"] == strip(Subst(ctx_of(survey), "${" + item[0] + "}", ctx_of(survey)))
@@ -165,3 +164,86 @@ def _(self: QuestionK, survey: SurveyQ) -> XNode:
         invariant(forall(0, q, lambda r: keys(Cd)[r] == "tag" or (keys(Cd)[r] in result.attrs
                          and result.attrs[keys(Cd)[r]] == Subst(ctx_of(survey), Cd[keys(Cd)[r]], ctx_of(self)))))
         invariant(forall_str(lambda a: implies(a in result.attrs, a == "ref" or (a in Cd and a != "tag"))))
+
+
+# ---------------------------------------------------------------- the control of a question row (C04 visibility, C10 nesting)
+
+TrigMap = Dict[str, List[Item]]
+SurveyT = Obj("Survey", name=str, _xpath=Opt[Dict[str, Opt[Elem]]], setvalues_by_triggering_ref=TrigMap,
+              setgeopoint_by_triggering_ref=TrigMap)
+
+
+@spec
+def BuiltControl(q: QuestionK, survey: Ctx) -> Opt[XNode]:
+    """The control element of the row before actions are nested (family contract of build_xml; None for types without
+    a body control: hidden, metadata, background types)."""
+    uninterpreted()
+
+
+@contract("Question.build_xml")
+def _(self: QuestionK, survey: SurveyT) -> Opt[XNode]:
+    trusted("family contract of build_xml (input / upload / select / range / osm ... overrides; their common skeleton "
+            "Question._build_xml is proved above); bounded: C04 e2e oracle and type-table facts")
+    ensures(result == BuiltControl(self, ctx_of(survey)))
+    may_raise(PyXFormError, when=True)
+
+
+@contract("Survey.get_trigger_values_for_question_name", module="pyxform.survey")
+def _(self: SurveyT, question_name: str, trigger_type: str) -> Opt[List[Item]]:
+    properties("C10")
+    no_native("needs a survey object")
+    key = "${" + question_name + "}"
+    ensures(implies(trigger_type == "setvalue", result == self.setvalues_by_triggering_ref.get(key)))
+    ensures(implies(trigger_type == "setgeopoint", result == self.setgeopoint_by_triggering_ref.get(key)))
+    ensures(implies(trigger_type != "setvalue" and trigger_type != "setgeopoint", result is None))
+
+
+@contract("Question._validate_is_not_a_trigger")
+def _(self: QuestionK, survey: SurveyT) -> None:
+    properties("C10", "C17")
+    no_native("needs survey-element objects")
+    SV = survey.setvalues_by_triggering_ref.get("${" + self.name + "}")
+    SG = survey.setgeopoint_by_triggering_ref.get("${" + self.name + "}")
+    # a row without a body control that is named as a trigger is refused, naming both questions
+    raises(PyXFormError, when=bool(SV) or bool(SG), message="${" + self.name + "}" in message)
+
+    @loop(0, index="i")
+    def _():
+        invariant(i == 0)
+
+    @loop(1, index="i")
+    def _():
+        invariant(i == 0)
+
+
+@contract("Question.xml_control")
+def _(self: QuestionK, survey: SurveyT) -> Opt[XNode]:
+    properties("C04", "C10", "C02")
+    no_native("needs survey-element objects: exercised through the e2e oracles and the runtime monitor")
+    may_raise(PyXFormError, when=True)
+    SV = survey.setvalues_by_triggering_ref.get("${" + self.name + "}")
+    SG = survey.setgeopoint_by_triggering_ref.get("${" + self.name + "}")
+    nsv = ite(bool(SV), len(some(SV)), 0)
+    nsg = ite(bool(SG), len(some(SG)), 0)
+    hidden = self.type == "calculate" or (((self.bind is not None and "calculate" in some(self.bind)) or bool(self.trigger))
+                                          and not (bool(self.label) or bool(self.hint)))
+    B = BuiltControl(self, ctx_of(survey))
+    nocontrol = hidden or B is None
+    nb = len(some(B).kids)
+    # established by Survey.xml before the body is built: every triggered row is in the reference table
+    requires(survey._xpath is not None)
+    requires(implies(bool(SV), forall(0, len(some(SV)), lambda j: some(SV)[j][0] in some(survey._xpath))))
+    requires(implies(bool(SG), forall(0, len(some(SG)), lambda j: some(SG)[j][0] in some(survey._xpath))))
+    # C04: a calculation without label and hint, and a type without a body control, is not presented
+    ensures((result is None) == nocontrol)
+    # C10: ... and then no calculation may name it as its trigger (the action would be emitted nowhere)
+    ensures(implies(nocontrol, not bool(SV) and not bool(SG)))
+    # C10: the control keeps what build_xml produced and gains exactly one action per triggered row: first the
+    # setvalue actions, then the setgeopoint actions, each in sheet order
+    ensures(implies(not nocontrol, some(result).nodeType == some(B).nodeType and some(result).tagName == some(B).tagName
+                    and same(some(result).attrs, some(B).attrs) and len(some(result).kids) == nb + nsv + nsg
+                    and forall(0, nb, lambda j: some(result).kids[j] == some(B).kids[j])))
+    ensures(implies(not nocontrol and bool(SV), forall(0, nsv, lambda j:
+            SetNodeOk(some(result).kids[nb + j], survey, "setvalue", some(SV)[j]))))
+    ensures(implies(not nocontrol and bool(SG), forall(0, nsg, lambda j:
+            SetNodeOk(some(result).kids[nb + nsv + j], survey, "odk:setgeopoint", some(SG)[j]))))
